@@ -1325,10 +1325,18 @@ func (a *assocRunner[V]) doOp(name string) bool {
 		if n > 9 {
 			n = n % 10
 		}
+		if s.nextKeys != nil {
+			n = len(s.nextKeys)
+		}
 		as := make([]col.AssociationLike[V, V], n)
 		for i := range as {
+			if s.nextKeys != nil {
+				as[i] = col.Association[V, V](s.notation).Make(s.nextKeys[i], s.nextVals[i])
+				continue
+			}
 			as[i] = col.Association[V, V](s.notation).Make(a.genk(r), s.genv(r))
 		}
+		s.nextKeys, s.nextVals = nil, nil
 		s.record(a, name, "NewSlice "+encAssocVals(as), fmt.Sprintf("assocs %s", encAssocs(as)), func() string {
 			s.add(kASlice, as, 0)
 			return "RNew"
@@ -1394,7 +1402,7 @@ func (a *assocRunner[V]) doOp(name string) bool {
 			return false
 		}
 		as := s.pool[i].v.([]col.AssociationLike[V, V])
-		if r.chance(1, 2) {
+		if r.chance(1, 2) || s.hintCat {
 			s.record(a, "FromArray", fmt.Sprintf("FromArray CCatalog %d", i), fmt.Sprintf("Catalog.MakeFromArray(#%d)", i), func() string {
 				s.add(kCat, col.Catalog[V, V](s.notation).MakeFromArray(as), 0)
 				return "RNew"
